@@ -58,6 +58,8 @@ package combinator
 //@   captures (parsers []parsley.Parser)
 //@   requires len(parsers) >= 1 && forall k int :: 0 <= k && k < len(parsers) ==> parsers[k] != nil
 //@   include  parsley.Parser.Parse
+//@   ghost_at call#2 parsley.GhostLastNode = lastres[parsley.Node](0)
+//@   assert_at call#4 [E4-merged;C01] same(lastarg[parsley.Node](1), parsley.GhostLastNode)
 //@ loop 1 (k rangeindex, cp data.IntSet, res parsley.Node, err parsley.Error, notFoundErr parsley.Error)
 //@   invariant 0 <= k && k <= len(parsers)
 //@   invariant parsley.WfCtx(ctx) && parsley.WfCache(ctx) && parsley.InInput(ctx.Reader(), pos) && ghostIn(ctx, lrc, pos)
